@@ -354,7 +354,11 @@ func runWorld(t *testing.T, res *vh.Result, tr *vh.Trace, wi int, sched []step, 
 			if len(b.Transactions) == 0 {
 				return true
 			}
-			b.Transactions = b.Transactions[:len(b.Transactions)-1] // Merkle root no longer matches
+			if r.Intn(2) == 0 {
+				b.Transactions = b.Transactions[:len(b.Transactions)-1] // Merkle root no longer matches
+			} else {
+				b.Transactions = nil // the right header with a stripped body
+			}
 			e, pan = guarded(func() error { return mod.AddBlock(b) })
 			ev["expect_ok"] = false
 			ev["junk"] = true
